@@ -37,5 +37,5 @@ PROP = {
     "explanation": "C04: real Writer object.",
     "technique": "Kani/CBMC bounded symbolic model checking of the real Writer object with environment stubs",
     "level_text": "SAT-solver verdict over all reader mixes and acknowledgment states inside the stated bounds.",
-    "level_note": "Trusted: Kani/CBMC/CaDiCaL, container shim, environment stubs listed in evidence.",
+    "level_note": "Decided on the real Writer object: cache cleaning (all reader mixes of the grid, acknowledgment states symbolic), the single-reader guard of send_cache_change (who gets which SN; DATA/DATAFRAG builders replaced by recorders), and on the real RtpsReaderProxy from arbitrary states (requests become to-be-sent, pending GAPs). NOT decided: HEARTBEAT contents after a tick and the bytes of repair DATA/GAP messages (Writer object + message builder did not fit; message bytes are C14/C05). The cache-cleaning defect found here was repaired in /repo (fix: d9aea48). Trusted: Kani/CBMC/CaDiCaL, container shim, environment stubs listed in evidence.",
 }
